@@ -63,12 +63,12 @@ class EnvProblem(Problem):
     """Objective = environment.  answer(k, y) is asked for the k-th evaluation attempt (1-based)
     and may raise.  Every successful evaluation is logged as (y copy, value)."""
 
-    def __init__(self, N, lower, upper, answer, fresh_holder=False, int_bounds=False):
+    def __init__(self, N, lower, upper, answer, fresh_holder=False, int_bounds=False, constraints=0):
         super().__init__()
         self.fresh_holder = fresh_holder   # return a new FunctionValue instead of filling the supplied one
         self.numberOfFloatVariables = N
         self.numberOfObjectives = 1
-        self.numberOfConstraints = 0
+        self.numberOfConstraints = constraints     # declared constraints (the AGP solver of this version evaluates the objective only)
         self.floatVariableNames = np.array([f"x{i}" for i in range(N)], dtype=str)
         self.lowerBoundOfFloatVariables = np.array(lower, dtype=np.double)
         self.upperBoundOfFloatVariables = np.array(upper, dtype=np.double)
@@ -177,12 +177,13 @@ class Snapshot:
 class SolverRun:
     def __init__(self, N=1, lower=None, upper=None, r=2.0, eps=0.01, itersLimit=20000, answer=None,
                  density=None, refine=False, listeners=(), problem=None, fresh_holder=False, other=None,
-                 int_bounds=False):
+                 int_bounds=False, constraints=0, probe=False):
         lower = [0.0] * N if lower is None else lower
         upper = [1.0] * N if upper is None else upper
         self.N = N
         self.problem = problem if problem is not None else EnvProblem(N, lower, upper, answer, fresh_holder,
-                                                                             int_bounds)
+                                                                             int_bounds, constraints)
+        self.probe = probe      # read-only queries of solver.evolvent between the calls
         kw = dict(eps=eps, r=r, itersLimit=itersLimit, refineSolution=refine)
         if density is not None:
             kw["evolventDensity"] = density
@@ -229,6 +230,13 @@ class SolverRun:
             finally:
                 self.out += buf.getvalue()
         self._poke_other()
+        if self.probe:
+            p = self.problem
+            lo = np.array(p.lowerBoundOfFloatVariables, dtype=float)
+            q = lo + (np.array(p.upperBoundOfFloatVariables, dtype=float) - lo) * 0.3137
+            with quiet():
+                self.solver.evolvent.GetPreimages(np.array(q))
+                self.solver.evolvent.GetInverseImage(np.array(q))
 
     def refine(self, n, local_fn):
         """DoLocalRefinement(n) with the objective answered by local_fn(y) (local evaluations are logged apart)"""
